@@ -1,5 +1,6 @@
 import AdaptixModel.Protocol
 import AdaptixModel.Retort.Threads
+import AdaptixModel.Retort.Derive
 
 /-
   JSON ops of the thread model (C12).
@@ -11,6 +12,10 @@ import AdaptixModel.Retort.Threads
   G = {"nodes":[{"ty":τ,"site":s,"kind":K,"pre":[[site,const,K],…],"children":[loc,…]},…],
        "locs":[[loc,τ],…],"tops":[[τ,loc],…]}
   K = "fresh" | "fresh_nullable" | "aux" | "fail" | ["prim",p]
+  {"op":"derive_run","strategy":"fresh"|"snapshot"|"iterate","origin":n,"acts":[["clone"]|["store",k],…]}
+     -> {"state":"start"|"iterating"|"done"|"error","size":n,"steps":n}
+     (model of `Retort.replace` / `Retort.extend` against concurrent stores, AdaptixModel/Retort/Derive.lean; the
+      origin's cache starts with the keys 0..n-1)
 -/
 namespace Adaptix.Ops.C12
 open Lean Adaptix.Protocol Adaptix.Threads
@@ -103,9 +108,30 @@ def encLabel : Label → Json
 def decThread (j : Json) : Except String (TyId × Nat) := do
   pure (← fieldNat j "ty", ← fieldNat j "depth")
 
+def decAct (j : Json) : Except String Derive.Act := do
+  match (← asArr j) with
+  | [.str "clone"] => pure .clone
+  | [.str "store", k] => do pure (.store (← asNat k) 0)
+  | _ => throw "bad act"
+
 def handle : Protocol.Handler := fun j => do
   let op ← fieldStr j "op"
   match op with
+  | "derive_run" =>
+    let st : Derive.Strategy ← match (← fieldStr j "strategy") with
+      | "fresh" => pure .fresh
+      | "snapshot" => pure .snapshot
+      | "iterate" => pure .iterate
+      | x => throw s!"unknown strategy {x}"
+    let origin : Derive.Dict := (List.range (← fieldNat j "origin")).map fun i => (i, 0)
+    let acts ← (← fieldArr j "acts").mapM decAct
+    let s := Derive.run st (Derive.init origin) acts
+    let (state, size) : String × Nat := match s.clone with
+      | .start => ("start", 0)
+      | .iterating _ _ acc => ("iterating", acc.length)
+      | .done d => ("done", d.length)
+      | .error => ("error", 0)
+    return Json.mkObj [("state", Json.str state), ("size", natJ size), ("steps", natJ s.steps)]
   | "schedule_run" =>
     let G ← decGraph (← field j "graph")
     let fuel ← fieldNat j "fuel"
